@@ -140,7 +140,13 @@ func cmdCheck(args []string) int {
 	var P *vc.Program
 	if len(keys) > 0 {
 		var err error
-		P, err = vc.Load(*repo, pkgsOf(keys))
+		loadKeys := append([]string{}, keys...)
+		for _, jf := range cs.JSONForms {
+			if hasProp(jf.Props, *prop) {
+				loadKeys = append(loadKeys, jf.Pkg+"."+jf.Type) // the package that declares the type is loaded too
+			}
+		}
+		P, err = vc.Load(*repo, pkgsOf(loadKeys))
 		if err != nil {
 			fmt.Fprintln(os.Stderr, err)
 			return 2
@@ -210,6 +216,15 @@ func cmdCheck(args []string) int {
 		for _, af := range P.Contracts.AtomicFields {
 			if hasProp(af.Props, *prop) {
 				u := vc.AtomicFieldUnit(P, af)
+				units = append(units, u)
+				all = append(all, u.Obligs...)
+			}
+		}
+	}
+	if P != nil {
+		for _, jf := range P.Contracts.JSONForms {
+			if hasProp(jf.Props, *prop) {
+				u := vc.JSONFormUnit(P, jf)
 				units = append(units, u)
 				all = append(all, u.Obligs...)
 			}
@@ -356,6 +371,11 @@ func cmdCheck(args []string) int {
 			}
 			rp["replay_test"] = map[string]string{"package": w.Pkg, "run": w.Run, "files": filepath.Join(*verif, "witnesses", w.Pkg)}
 			rp["replay_output"] = trunc(res[1], 4000)
+			if res[0] == "false" && (strings.Contains(res[1], "[build failed]") || strings.Contains(res[1], "[setup failed]")) {
+				// the recorded input does not compile against this tree: nothing was replayed
+				rp["note"] = "the obligation failed; the recorded concrete input for it could not be built against this tree, so nothing was replayed"
+				continue
+			}
 			if res[0] == "false" {
 				rp["reproduced"] = true
 				rp["note"] = "the obligation failed and the recorded concrete input for it fails against the real code (go test -overlay, nothing written to the repository)"
@@ -402,9 +422,17 @@ func cmdCheck(args []string) int {
 			path := filepath.Join(replayDir, *prop+"-bounded.json")
 			rp := map[string]interface{}{"property": *prop, "obligation": "bounded:" + b[1], "kind": "bounded stand-in on the real code", "reproduced": true,
 				"failing_inputs": boundedStats["failures"], "replay_test": map[string]string{"package": b[0], "run": b[1], "files": filepath.Join(*verif, "bounded", b[0])}, "output": trunc(out, 4000)}
+			suffix := ""
+			if strings.Contains(out, "[build failed]") || strings.Contains(out, "[setup failed]") {
+				// the stand-in drives an API that no longer compiles: nothing was run, the bounded part is undecided
+				rp["reproduced"] = false
+				rp["kind"] = "binding"
+				rp["note"] = "the bounded stand-in could not be built against this tree (the functions it drives have changed); nothing was run"
+				suffix = " no-failing-input-found"
+			}
 			rb, _ := json.MarshalIndent(rp, "", " ")
 			os.WriteFile(path, rb, 0o644)
-			fmt.Printf("VIOLATION property=%s replay=%s obligation=bounded:%s\n", *prop, path, b[1])
+			fmt.Printf("VIOLATION property=%s replay=%s obligation=bounded:%s%s\n", *prop, path, b[1], suffix)
 		}
 	}
 	wall := time.Since(t0).Seconds()
